@@ -1,6 +1,7 @@
 import Blots.Lemmas.Separators
 import Blots.Lemmas.DisplayInt
 import Blots.Lemmas.DisplayExact
+import Blots.Lemmas.DisplayRounding
 /-
   C20 — Displayed numbers are well-formed and accurate to 15 significant digits.
 
@@ -20,6 +21,14 @@ import Blots.Lemmas.DisplayExact
     * the integer path and the scientific path use no float operation at all;
     * every integral double below 2^53 that is shown in standard notation takes the integer
       path, and its text denotes it EXACTLY, with the sign shown exactly once.
+    * UNDER NAMED HYPOTHESES (the standard model of float arithmetic `RoundingModel ops u`
+      for `* /`, exactness of the magnitude step (H1), of `powi` (H2) and of `round` (H3) at
+      the values used, no overflow): `round_to_significant_figures(x, 15)` is within
+      `(½ + 3·u·10^15)` units of the 15th significant digit of `x` (`fraction_rounding_error`;
+      less than one unit for `u = 2^-53`), and — given the text-level rendering step
+      `FractionRendering`, stated but not proved — the displayed numeral denotes exactly
+      `n/10^(14−e)`, `n` the integer `round` returned, within `(½ + u·10^15) < 0.62` units of
+      `x`, whichever decade the rounded value falls in (`display_accuracy_fraction`).
   What is NOT proved (and is false of the code on the pinned tree):
     * `display_accuracy_statement` — fewer than one unit of error in the 15th significant
       digit on the `fraction` path.  The path computes ⌊log10|x|⌋ with the float `log10`,
@@ -198,5 +207,216 @@ def display_accuracy_statement (ops : NumOps) : Prop :=
 theorem display_accuracy_partial (ops : NumOps) (x : F64) (h : path x = .integer) :
     denotesExactly (formatDisplayNumber ops x) x :=
   integer_path_exact ops x h
+
+/-! #### the fraction path under the standard model of float arithmetic
+
+  `RoundingModel ops u` (`Lemmas/Rounding.lean`): `fl(a∘b) = (a∘b)(1+δ)`, `|δ| ≤ u`, for
+  `+ × /` on finite operands with finite, not underflowed results (binary64: `u = 2^-53`).
+  The remaining float steps of the path are named hypotheses:
+    (H1) `MagnitudeExact ops x e`  — `decimal_exponent(|x|)` is the true `e = ⌊log10 |x|⌋`
+         (this is what fails at the `c20.accuracy` witnesses a few ulps below 10^k);
+    (H2) `PowiExactAt ops (14 − e)` — `10f64.powi(14 − e)` is finite and exactly `10^(14−e)`
+         (true of `f64::powi` for exponents of magnitude ≤ 22);
+    (H3) `RoundExactAt ops p`       — `round` returns at `p = fl(x·scale)` a finite integer
+         within ½ of `p`;
+  plus "no overflow" (`hmf`, `hdf`: the product and the final quotient are finite).
+  `toRat x = x.toRat` (`F64.toRat`) by `rfl`; `absRat q = |q|`. -/
+
+/-- (H1) the magnitude step is exact at `x` -/
+def MagnitudeExact (ops : NumOps) (x : F64) (e : Int) : Prop :=
+  decimalExponent ops x.abs = e ∧
+    (10 : Rat) ^ e ≤ absRat (toRat x) ∧ absRat (toRat x) < (10 : Rat) ^ (e + 1)
+
+/-- `round_to_significant_figures(x, 15)` is within `(½ + 3·u·10^15)` units of the 15th
+    significant digit of `x`: half a unit from `round`, relative errors `u` from `*` and `/` -/
+theorem fraction_rounding_error (ops : NumOps) (u : Rat) (M : RoundingModel ops u)
+    (hu : u ≤ 1 / 2) (x : F64) (e : Int) (hpath : path x = .fraction) (he : -5 ≤ e)
+    (H1 : MagnitudeExact ops x e) (H2 : PowiExactAt ops (14 - e))
+    (H3 : RoundExactAt ops (ops.mul x (ops.powi ten (14 - e))))
+    (hmf : (ops.mul x (ops.powi ten (14 - e))).isFinite = true)
+    (hdf : (roundToSignificantFigures ops x 15).isFinite = true) :
+    absRat (toRat (roundToSignificantFigures ops x 15) - toRat x) ≤
+      (1 / 2 + 3 * u * 10 ^ 15) * (10 : Rat) ^ (e - 14) := by
+  obtain ⟨_, hn, hi, hz⟩ := formatDisplayNumber_fraction ops x hpath
+  obtain ⟨h1, hlo, hhi⟩ := H1
+  have habs : ∀ q : Rat, absRat q = |q| := ratAbs_eq
+  rw [habs] at hlo hhi ⊢
+  exact roundToSignificantFigures_error M hu x e (isFinite_of_not_nan_inf hn hi) hz hlo hhi he
+    h1 H2 H3 hmf hdf
+
+/-- for binary64 (`u = 2^-53`, `3·u·10^15 < 0.34`) that is less than one unit -/
+theorem fraction_rounding_within_one_unit (ops : NumOps) (M : RoundingModel ops u64)
+    (x : F64) (e : Int) (hpath : path x = .fraction) (he : -5 ≤ e)
+    (H1 : MagnitudeExact ops x e) (H2 : PowiExactAt ops (14 - e))
+    (H3 : RoundExactAt ops (ops.mul x (ops.powi ten (14 - e))))
+    (hmf : (ops.mul x (ops.powi ten (14 - e))).isFinite = true)
+    (hdf : (roundToSignificantFigures ops x 15).isFinite = true) :
+    absRat (toRat (roundToSignificantFigures ops x 15) - toRat x) < (10 : Rat) ^ (e - 14) := by
+  have h := fraction_rounding_error ops u64 M (by unfold u64; norm_num) x e hpath he H1 H2 H3 hmf hdf
+  have hT : (0 : Rat) < (10 : Rat) ^ (e - 14) := zpow_pos (by norm_num) _
+  have hc : (1 / 2 + 3 * u64 * 10 ^ 15 : Rat) < 1 := by unfold u64; norm_num
+  calc _ ≤ (1 / 2 + 3 * u64 * 10 ^ 15) * (10 : Rat) ^ (e - 14) := h
+    _ < 1 * (10 : Rat) ^ (e - 14) := mul_lt_mul_of_pos_right hc hT
+    _ = _ := one_mul _
+
+/-- THE REMAINING STEP (text level, independent of float arithmetic; not proved): the text
+    produced from `y = round_to_significant_figures(x, 15)` — `{:.dp}` with
+    `dp = decimalPlaces ops y 15`, trailing zeros trimmed, integer part grouped — is a
+    well-formed numeral whose value is a multiple of `10^-dp` within half of it of `y`
+    (`F64.toFixed` rounds `y` correctly to `dp` places; trimming and grouping keep the value,
+    `trim_zeros_value_preserving`, `fraction_numeral_separators`). -/
+def FractionRendering (ops : NumOps) (x : F64) : Prop :=
+  let y := roundToSignificantFigures ops x 15
+  let dp := decimalPlaces ops y 15
+  ∃ (v : Rat) (m : Int), Denotes (addThousandSeparators (formatFloatSignificant ops y 15)) v ∧
+    v = (m : Rat) / (10 : Rat) ^ dp ∧ absRat (v - toRat y) ≤ 1 / 2 / (10 : Rat) ^ dp
+
+/-- ACCURACY ON THE FRACTION PATH, conditional on the named hypotheses: under the standard
+    model with `u = 2^-53`, (H1) for `x` AND for the rounded value `y` (whose decade `e'` may
+    be `e − 1`, `e` or `e + 1`; the number of decimals is `max(0, 14 − e')`), (H2), (H3), no
+    overflow, and the rendering step `FractionRendering`, the displayed numeral is well-formed
+    and within ONE unit of the 15th significant digit of `x` — in fact within
+    `½ + 2^-53·10^15 < 0.62` units: the text denotes exactly `n/10^(14−e)`, `n` the integer
+    that `round` returned.  Missing for the unconditional statement: (H1)–(H3) are facts about
+    libm / hardware ((H1) is false at the `c20.accuracy` witnesses), and `FractionRendering`
+    is the unproved text-level step. -/
+theorem display_accuracy_fraction (ops : NumOps) (M : RoundingModel ops u64)
+    (x : F64) (e e' : Int) (hpath : path x = .fraction) (he : -5 ≤ e) (he' : e ≤ 14)
+    (H1 : MagnitudeExact ops x e) (H2 : PowiExactAt ops (14 - e))
+    (H3 : RoundExactAt ops (ops.mul x (ops.powi ten (14 - e))))
+    (hmf : (ops.mul x (ops.powi ten (14 - e))).isFinite = true)
+    (hdf : (roundToSignificantFigures ops x 15).isFinite = true)
+    (H1y : MagnitudeExact ops (roundToSignificantFigures ops x 15) e')
+    (R : FractionRendering ops x) :
+    ∃ v : Rat, Denotes (formatDisplayNumber ops x) v ∧
+      absRat (v - toRat x) < (10 : Rat) ^ (e - 14) := by
+  obtain ⟨htext, hn, hi, hz⟩ := formatDisplayNumber_fraction ops x hpath
+  obtain ⟨h1, hlo, hhi⟩ := H1
+  obtain ⟨h1y, hy1, hy2⟩ := H1y
+  obtain ⟨v, m, hden, hv, hvy⟩ := R
+  have habs : ∀ q : Rat, absRat q = |q| := ratAbs_eq
+  rw [habs] at hlo hhi hvy hy1 hy2
+  have h := display_value_error_any_decade M (by unfold u64; norm_num) x e e'
+    (isFinite_of_not_nan_inf hn hi) hz hlo hhi he he' h1 H2 H3 hmf hdf h1y hy1 hy2 v m hv hvy
+  refine ⟨v, by rw [htext]; exact hden, ?_⟩
+  rw [habs]
+  have hT : (0 : Rat) < (10 : Rat) ^ (e - 14) := zpow_pos (by norm_num) _
+  have hc : (1 / 2 + u64 * 10 ^ 15 : Rat) < 1 := by unfold u64; norm_num
+  calc _ ≤ (1 / 2 + u64 * 10 ^ 15) * (10 : Rat) ^ (e - 14) := h
+    _ < 1 * (10 : Rat) ^ (e - 14) := mul_lt_mul_of_pos_right hc hT
+    _ = _ := one_mul _
+
+/-- the same in the shape of `display_accuracy_statement`: the conclusion of the full
+    statement holds at every `x` of the fraction path that meets the named hypotheses -/
+theorem display_accuracy_statement_at (ops : NumOps) (M : RoundingModel ops u64)
+    (x : F64) (e e' : Int) (hpath : path x = .fraction) (he : -5 ≤ e) (he' : e ≤ 14)
+    (H1 : MagnitudeExact ops x e) (H2 : PowiExactAt ops (14 - e))
+    (H3 : RoundExactAt ops (ops.mul x (ops.powi ten (14 - e))))
+    (hmf : (ops.mul x (ops.powi ten (14 - e))).isFinite = true)
+    (hdf : (roundToSignificantFigures ops x 15).isFinite = true)
+    (H1y : MagnitudeExact ops (roundToSignificantFigures ops x 15) e')
+    (R : FractionRendering ops x) :
+    ∃ v : Rat, Denotes (formatDisplayNumber ops x) v ∧
+      ∃ k : Int, (10 : Rat) ^ k ≤ absRat (toRat x) ∧ absRat (toRat x) < (10 : Rat) ^ (k + 1) ∧
+        absRat (v - toRat x) < (10 : Rat) ^ (k - 14) := by
+  obtain ⟨v, hv, hb⟩ :=
+    display_accuracy_fraction ops M x e e' hpath he he' H1 H2 H3 hmf hdf H1y R
+  exact ⟨v, hv, e, H1.2.1, H1.2.2, hb⟩
+
+/-- ALL hypotheses of `display_accuracy_fraction` (hence of the theorems around it) hold
+    for `x = 0.1 + 0.2 = 0.30000000000000004`, `e = −1`, with `displayOps` (correctly rounded
+    `+ × /`, exact round-half-away `round`, `Lemmas/DisplayRounding.lean`): the text is `0.3` -/
+example : ∃ v : Rat, Denotes (formatDisplayNumber displayOps dbl0304) v ∧
+    absRat (v - toRat dbl0304) < (10 : Rat) ^ ((-1 : Int) - 14) := by
+  have hS : displayOps.powi ten (14 - (-1 : Int)) = highThreshold := by decide +kernel
+  have hx : toRat dbl0304 = 1351079888211149 / 4503599627370496 := by decide +kernel
+  have hp : (displayOps.mul dbl0304 highThreshold).toRat = 4800000000000001 / 16 := by
+    decide +kernel
+  have hr : (displayOps.round (displayOps.mul dbl0304 highThreshold)).toRat = 300000000000000 := by
+    decide +kernel
+  have hy : roundToSignificantFigures displayOps dbl0304 15 = dbl03 := by decide +kernel
+  have hy3 : toRat dbl03 = 5404319552844595 / 18014398509481984 := by decide +kernel
+  have habs : ∀ q : Rat, absRat q = |q| := ratAbs_eq
+  refine display_accuracy_fraction displayOps displayOps_model dbl0304 (-1) (-1) (by decide +kernel)
+    (by decide) (by decide) ⟨by decide +kernel, ?_, ?_⟩ ⟨?_, ?_⟩ ⟨?_, 300000000000000, ?_, ?_⟩
+    ?_ ?_ ⟨?_, ?_, ?_⟩ ?_
+  · rw [habs, hx, abs_of_pos (by norm_num)]; norm_num
+  · rw [habs, hx, abs_of_pos (by norm_num)]; norm_num
+  · rw [hS]; decide
+  · rw [hS]
+    have : highThreshold.toRat = 1000000000000000 := by decide +kernel
+    rw [this]; norm_num
+  · rw [hS]; decide +kernel
+  · rw [hS, hr]; norm_num
+  · rw [hS, hp]; rw [abs_le]; constructor <;> norm_num
+  · rw [hS]; decide +kernel
+  · rw [hy]; decide
+  · rw [hy]; decide +kernel
+  · rw [hy, habs, hy3, abs_of_pos (by norm_num)]; norm_num
+  · rw [hy, habs, hy3, abs_of_pos (by norm_num)]; norm_num
+  · unfold FractionRendering
+    rw [hy]
+    have htext : addThousandSeparators (formatFloatSignificant displayOps dbl03 15) =
+        ((if false = true then ['-'] else []) ++ ['0'] ++ (if ['3'] = [] then [] else '.' :: ['3'])) := by
+      decide +kernel
+    have hdp : decimalPlaces displayOps dbl03 15 = 15 := by decide +kernel
+    have hd : digitsVal (stripCommas ['0'] ++ ['3']) = 3 := by decide
+    refine ⟨(if false = true then -1 else 1) *
+      ((digitsVal (stripCommas ['0'] ++ ['3']) : Rat) / (10 : Rat) ^ ['3'].length),
+      300000000000000, ?_, ?_, ?_⟩
+    · rw [htext]
+      exact Denotes.standard false ['0'] ['3'] (by decide) (by decide) (by decide)
+    · simp only [hdp, hd]; norm_num
+    · simp only [hdp, hd, habs, hy3]
+      rw [abs_le]; constructor <;> norm_num
+
+/-- the same for `x = 0.9999999999999999` (the double below 1), whose rounded value `1.0`
+    leaves the decade of `x` (`e = −1`, `e' = 0`, 14 decimals): the text is `1` -/
+example : ∃ v : Rat, Denotes (formatDisplayNumber displayOps (F64.ofNatBits 0x3FEFFFFFFFFFFFFF)) v ∧
+    absRat (v - toRat (F64.ofNatBits 0x3FEFFFFFFFFFFFFF)) < (10 : Rat) ^ ((-1 : Int) - 14) := by
+  have hS : displayOps.powi ten (14 - (-1 : Int)) = highThreshold := by decide +kernel
+  have hx : toRat (F64.ofNatBits 0x3FEFFFFFFFFFFFFF) = 9007199254740991 / 9007199254740992 := by
+    decide +kernel
+  have hp : (displayOps.mul (F64.ofNatBits 0x3FEFFFFFFFFFFFFF) highThreshold).toRat =
+      7999999999999999 / 8 := by decide +kernel
+  have hr : (displayOps.round (displayOps.mul (F64.ofNatBits 0x3FEFFFFFFFFFFFFF) highThreshold)).toRat
+      = 1000000000000000 := by decide +kernel
+  have hy : roundToSignificantFigures displayOps (F64.ofNatBits 0x3FEFFFFFFFFFFFFF) 15 = F64.one := by
+    decide +kernel
+  have hy1 : toRat F64.one = 1 := F64.toRat_one
+  have habs : ∀ q : Rat, absRat q = |q| := ratAbs_eq
+  refine display_accuracy_fraction displayOps displayOps_model (F64.ofNatBits 0x3FEFFFFFFFFFFFFF) (-1) (0 : Int)
+    (by decide +kernel)
+    (by decide) (by decide) ⟨by decide +kernel, ?_, ?_⟩ ⟨?_, ?_⟩ ⟨?_, 1000000000000000, ?_, ?_⟩
+    ?_ ?_ ⟨?_, ?_, ?_⟩ ?_
+  · rw [habs, hx, abs_of_pos (by norm_num)]; norm_num
+  · rw [habs, hx, abs_of_pos (by norm_num)]; norm_num
+  · rw [hS]; decide
+  · rw [hS]
+    have : highThreshold.toRat = 1000000000000000 := by decide +kernel
+    rw [this]; norm_num
+  · rw [hS]; decide +kernel
+  · rw [hS, hr]; norm_num
+  · rw [hS, hp]; rw [abs_le]; constructor <;> norm_num
+  · rw [hS]; decide +kernel
+  · rw [hy]; decide
+  · rw [hy]; decide +kernel
+  · rw [hy, habs, hy1]; norm_num
+  · rw [hy, habs, hy1]; norm_num
+  · unfold FractionRendering
+    rw [hy]
+    have htext : addThousandSeparators (formatFloatSignificant displayOps F64.one 15) =
+        ((if false = true then ['-'] else []) ++ ['1'] ++
+          (if ([] : List Char) = [] then [] else '.' :: [])) := by
+      decide +kernel
+    have hdp : decimalPlaces displayOps F64.one 15 = 14 := by decide +kernel
+    have hd : digitsVal (stripCommas ['1'] ++ []) = 1 := by decide
+    refine ⟨(if false = true then -1 else 1) *
+      ((digitsVal (stripCommas ['1'] ++ []) : Rat) / (10 : Rat) ^ ([] : List Char).length),
+      100000000000000, ?_, ?_, ?_⟩
+    · rw [htext]
+      exact Denotes.standard false ['1'] [] (by decide) (by decide) (by decide)
+    · simp only [hdp, hd]; norm_num
+    · simp only [hdp, hd, habs, hy1]; norm_num
 
 end Blots.C20
